@@ -50,6 +50,8 @@ Empty == [
     opStack |-> <<>>, regErrSeen |-> FALSE, faultSeen |-> FALSE, c16off |-> FALSE,
     peSynth |-> FALSE, cmpSnap |-> FALSE, lastSnap |-> NoSnap,
     deadBefore |-> {},
+    \* executor sources: futures by id [s, want (scheduled / woken and not polled since), st, drops, v]
+    fut |-> <<>>, futReady |-> <<>>, polledNow |-> {}, earlyDrop |-> {}, wantAtWait |-> {}, limit |-> 1024,
     viol |-> {}
 ]
 
@@ -80,6 +82,7 @@ Fresh(old, ev) ==
         !.bs = [s \in S |-> 0], !.bhe = [s \in S |-> 0],
         !.dropSrc = [s \in S |-> 0], !.dropCb = [s \in S |-> 0], !.cbMade = [s \in S |-> 0],
         !.held = [s \in S |-> FALSE], !.recovered = [s \in S |-> FALSE],
+        !.limit = IF "limit" \in DOMAIN ev THEN ev.limit ELSE 1024,
         !.viol = old.viol ]
 
 (***************************************************************************)
@@ -124,6 +127,9 @@ ChildPending(sh, s, c) ==
           [] ch.mode = "oneshot" -> sh.armedOS[s][c]
           [] OTHER               -> sh.edgeDue[s][c]
 
+\* futures of executor x that were scheduled or woken and have not been polled since
+WantingFuts(sh, x) == {f \in DOMAIN sh.fut : sh.fut[f].s = x /\ sh.fut[f].want /\ sh.fut[f].st = "live" /\ sh.fut[f].drops = 0}
+
 \* pairs <<s, c>> (c = 0 for non-composites) that must be reported by a dispatch starting to wait now
 PendingNow(sh, us) ==
   {<<s, 0>> : s \in {x \in sh.S : /\ sh.life[x] = "in" /\ sh.en[x] /\ ~sh.fuzzy[x]
@@ -131,6 +137,7 @@ PendingNow(sh, us) ==
                                        [] Kind(sh, x) = "chan"  -> sh.queue[x] # <<>> \/ (sh.senders[x] = 0 /\ ~sh.closedSeen[x])
                                        \* a stream: queued items, or the end of the stream not yet reported
                                        [] Kind(sh, x) = "stream" -> sh.queue[x] # <<>> \/ (sh.sended[x] /\ ~sh.closedSeen[x])
+                                       [] Kind(sh, x) = "exec" -> WantingFuts(sh, x) # {}
                                        [] Kind(sh, x) = "timer" -> sh.armed[x] /\ sh.armHi[x] <= us
                                        [] OTHER -> FALSE}}
   \cup
@@ -145,7 +152,7 @@ Opted(sh) == {s \in sh.S : sh.decl[s].life = 1 /\ sh.life[s] = "in" /\ sh.en[s]}
 ExpectedEpoll(sh) ==
   UNION {
     IF ~(sh.life[s] = "in" /\ sh.en[s]) THEN {}
-    ELSE IF Kind(sh, s) \in {"ping", "chan", "stream"}
+    ELSE IF Kind(sh, s) \in {"ping", "chan", "stream", "exec"}
       THEN {<<sh.decl[s].fds[1], 1, 0, "level", KeyOf(sh, s)[1], KeyOf(sh, s)[2]>>}
     ELSE IF Kind(sh, s) = "comp"
       THEN {LET ch == sh.decl[s].children[c]
@@ -193,7 +200,8 @@ UpdOp(sh, ev) ==
                                      live |-> IF Has(ev, "t") THEN LiveTok(sh, TIdx(ev)) ELSE TRUE,
                                      m |-> IF Has(ev, "m") THEN ev.m ELSE 0,
                                      c |-> IF Has(ev, "c") THEN ev.c ELSE 0,
-                                     d |-> IF Has(ev, "d") THEN ev.d ELSE 0]),
+                                     d |-> IF Has(ev, "d") THEN ev.d ELSE 0,
+                                     f |-> IF Has(ev, "f") THEN ev.f ELSE 0]),
                       !.regErrSeen = FALSE,
                       \* sources that a callback of the current dispatch operated on (C08: same effect as outside)
                       !.cbTargets = IF ev.ctx # 0 /\ ev.op \in {"remove", "disable", "enable", "update", "insert"}
@@ -210,6 +218,7 @@ UpdOp(sh, ev) ==
                          !.lastTimerDl = -2000000000, !.opted = Opted(sh),
                          !.bs = [s \in sh.S |-> 0], !.bhe = [s \in sh.S |-> 0],
                          !.synthWanted = {}, !.synthDone = {}, !.idlePhase = FALSE, !.idleRanNow = {}, !.cbTargets = {}, !.appliedNow = FALSE,
+                         !.polledNow = {}, !.futReady = <<>>, !.wantAtWait = {},
                          !.deadBefore = {<<sh.tokens[i].id, sh.tokens[i].ver>> : i \in {j \in DOMAIN sh.tokens : ~LiveTok(sh, j)}}
                                          \ {<<sh.tokens[i].id, sh.tokens[i].ver>> : i \in {j \in DOMAIN sh.tokens : LiveTok(sh, j)}}]
        [] OTHER -> base
@@ -253,6 +262,11 @@ UpdOpret(sh, ev) ==
          [base EXCEPT !.handles[tgt] = @ - 1, !.closed[tgt] = sh.handles[tgt] = 1]
     [] ev.op = "send" /\ ok -> [base EXCEPT !.queue[tgt] = Append(@, co.m)]
     [] ev.op = "push" /\ ok -> [base EXCEPT !.queue[tgt] = Append(@, co.m)]
+    [] ev.op = "schedule" /\ ok ->
+         [base EXCEPT !.fut = (co.f :> [s |-> tgt, want |-> TRUE, st |-> "live", v |-> 0,
+                                        drops |-> IF co.f \in sh.earlyDrop THEN 1 ELSE 0]) @@ sh.fut]
+    [] ev.op \in {"wake", "complete"} /\ ok /\ co.f \in DOMAIN sh.fut ->
+         [base EXCEPT !.fut[co.f].want = TRUE]
     [] ev.op = "end_stream" /\ ok -> [base EXCEPT !.sended[tgt] = TRUE]
     [] ev.op = "clone_sender" /\ ok -> [base EXCEPT !.senders[tgt] = @ + 1]
     [] ev.op = "drop_sender" /\ ok -> [base EXCEPT !.senders[tgt] = @ - 1]
@@ -303,6 +317,7 @@ UpdCb(sh, ev) ==
                          THEN [b0 EXCEPT !.queue[s] = IF @ # <<>> /\ Head(@) = ev.p THEN Tail(@) ELSE @]
                          ELSE [b0 EXCEPT !.closedSeen[s] = TRUE]
        [] k = "timer" -> [b0 EXCEPT !.firedArm[s] = sh.armId[s], !.lastTimerDl = Max2(@, FiredDl(sh, ev))]
+       [] k = "exec" -> [b0 EXCEPT !.futReady = IF @ # <<>> THEN Tail(@) ELSE @]
        [] OTHER ->
             IF c \in DOMAIN sh.armedOS[s]
             \* the kernel disarmed / consumed the edge when the batch was collected; a re-registration
@@ -380,6 +395,7 @@ Upd(sh, ev) ==
     [] ev.e = "lookup"  -> [sh EXCEPT !.pa = NoPA]
     [] ev.e = "wait"    -> [sh EXCEPT !.waitSeen = TRUE, !.waitUs = ev.us, !.waitTimeout = ev.timeout,
                                       !.pendingAtWait = PendingNow(sh, ev.us),
+                                      !.wantAtWait = UNION {WantingFuts(sh, x) : x \in {y \in sh.S : sh.life[y] = "in" /\ sh.en[y] /\ ~sh.fuzzy[y]}},
                                       \* C12: how long this wait must last if nothing happens (microseconds; 0 = may return at once)
                                       !.expWait = LET armedDl == {sh.armLo[x] - ev.us : x \in {y \in sh.S : IsTimer(sh, y) /\ sh.life[y] = "in" /\ sh.en[y] /\ sh.armed[y]}}
                                                       tmo == IF ev.timeout < 0 THEN 2000000000 ELSE ev.timeout
@@ -407,6 +423,14 @@ Upd(sh, ev) ==
                                            !.lastSnap = [valid |-> TRUE, epoll |-> ev.epoll, life |-> ev.life,
                                                          heap |-> ev.heap, slots |-> ev.slots, idles |-> ev.idles,
                                                          pending |-> ev.pending]]
+    [] ev.e = "poll"    -> IF ev.f \in DOMAIN sh.fut
+                           THEN [sh EXCEPT !.fut[ev.f].want = FALSE, !.polledNow = @ \cup {ev.f}, !.fired = @ \cup {<<ev.s, 0>>}]
+                           ELSE sh
+    [] ev.e = "pollret" -> IF ev.f \in DOMAIN sh.fut /\ ev.r = "ready"
+                           THEN [sh EXCEPT !.fut[ev.f].st = "done", !.fut[ev.f].v = ev.v, !.futReady = Append(@, ev.f)]
+                           ELSE sh
+    [] ev.e = "fdrop"   -> IF ev.f \in DOMAIN sh.fut THEN [sh EXCEPT !.fut[ev.f].drops = @ + 1]
+                           ELSE [sh EXCEPT !.earlyDrop = @ \cup {ev.f}]
     [] ev.e = "drop_src" -> IF ev.s \in sh.S THEN [sh EXCEPT !.dropSrc[ev.s] = @ + 1] ELSE sh
     [] ev.e = "drop_cb"  -> IF ev.s \in sh.S THEN [sh EXCEPT !.dropCb[ev.s] = @ + 1] ELSE sh
     [] OTHER -> sh
@@ -425,6 +449,8 @@ CauseOk(sh, ev) ==
     [] k = "stream" -> IF ev.p >= 0 THEN sh.queue[s] # <<>> /\ Head(sh.queue[s]) = ev.p
                        ELSE sh.sended[s] /\ sh.queue[s] = <<>> /\ ~sh.closedSeen[s]
     [] k = "timer" -> sh.armed[s] /\ (sh.dlPending[s] \/ (sh.armLo[s] <= ev.p /\ ev.p <= sh.armHi[s]))
+    \* Executor: the output of a future that has just completed, exactly once
+    [] k = "exec" -> sh.futReady # <<>> /\ sh.fut[Head(sh.futReady)].v = ev.p
     [] OTHER ->
          LET c == ev.sub + 1 IN
          /\ c \in 1..NCh(sh.decl[s])
@@ -468,6 +494,9 @@ ViolCb(sh, ev) ==
 ViolPe(sh, ev) ==
   LET s == ev.s IN
   If(sh.life[s] = "in" /\ Tok2(ev.key) # KeyOf(sh, s), {<<"C01", "event_of_other_registration">>})
+  \* the loop resolves every event against the slot list right before delivering it: a source that was removed
+  \* earlier in this batch (by anybody) is not handed the events collected for it
+  \cup If(sh.life[s] = "out", {<<"C06", "event_processed_after_removal">>, <<"C01", "event_processed_after_removal">>})
   \cup If(~sh.synthSeen /\ sh.inDisp, {<<"C14", "process_before_before_handle_events">>})
 
 ViolPeret(sh, ev) ==
@@ -476,6 +505,7 @@ ViolPeret(sh, ev) ==
   If(Kind(sh, s) = "ping" /\ sh.life[s] = "in" /\ ~sh.fuzzy[s] /\ sh.closed[s] /\ ev.act # "remove",
      {<<"C03", "closed_ping_not_removed">>})
   \cup If(Kind(sh, s) = "ping" /\ ~sh.closed[s] /\ ev.act = "remove", {<<"C03", "open_ping_removed">>})
+  \cup If(Kind(sh, s) = "exec" /\ sh.futReady # <<>>, {<<"C10", "exec_result_not_delivered">>})
   \cup If(Kind(sh, s) = "chan" /\ sh.closedSeen[s] /\ ev.act # "remove", {<<"C04", "closed_channel_not_removed">>})
   \cup If(Kind(sh, s) = "stream" /\ sh.closedSeen[s] /\ ev.act # "remove", {<<"C10", "ended_stream_not_removed">>})
   \cup If(Kind(sh, s) = "stream" /\ ~sh.closedSeen[s] /\ ev.act = "remove", {<<"C10", "live_stream_removed">>})
@@ -509,6 +539,26 @@ ViolProbeCall(sh, ev) ==
   \cup If(OpOn(sh) /\ CurOp(sh).op \in {"disable", "enable", "update", "remove"} /\ ~CurOp(sh).live,
           {<<"C06", "dead_token_had_effect">>})
 
+\* C10: futures that were waiting for a poll when the dispatch started to wait and were not polled by it, although
+\* their executor polled fewer futures than its per-dispatch limit
+FutCheck(sh) ==
+  LET missed == {f \in sh.wantAtWait : /\ f \notin sh.polledNow /\ sh.fut[f].drops = 0
+                                        /\ LET x == sh.fut[f].s IN
+                                           /\ x \notin sh.touched /\ sh.life[x] = "in" /\ sh.en[x] /\ ~sh.fuzzy[x]
+                                           /\ Cardinality({g \in sh.polledNow : sh.fut[g].s = x}) < sh.limit}
+  IN If(missed # {}, {<<"C10", "woken_future_not_polled">>})
+
+ViolPoll(sh, ev) ==
+  LET s == ev.s IN
+  If(~sh.inDisp, {<<"C10", "future_polled_outside_dispatch">>})
+  \cup If(sh.inDisp /\ (sh.life[s] # "in" \/ ~sh.en[s]),
+          {<<"C10", "future_polled_while_executor_not_enabled">>, <<"C07", "cb_while_disabled">>})
+  \cup If(ev.f \in DOMAIN sh.fut /\ sh.fut[ev.f].st = "done", {<<"C10", "completed_future_polled_again">>})
+
+ViolFutures(sh) ==
+  If(\E f \in DOMAIN sh.fut : sh.fut[f].drops = 0 /\ sh.dropSrc[sh.fut[f].s] >= 1,
+     {<<"C10", "future_outlives_executor">>})
+
 PendingCheck(sh) ==
   \* C02 (and the carried-over obligations of C15) at the end of an Ok dispatch
   LET missed == {p \in sh.pendingAtWait : p[1] \notin sh.touched /\ p \notin sh.fired
@@ -519,6 +569,7 @@ PendingCheck(sh) ==
      \cup If(\E p \in missed : Kind(sh, p[1]) = "ping", {<<"C03", "ping_lost">>})
      \cup If(\E p \in missed : Kind(sh, p[1]) = "chan", {<<"C04", "message_stranded">>})
      \cup If(\E p \in missed : Kind(sh, p[1]) = "stream", {<<"C10", "stream_item_stranded">>})
+     \cup If(\E p \in missed : Kind(sh, p[1]) = "exec", {<<"C10", "executor_not_run_although_future_woken">>})
 
 IdleEndCheck(sh) ==
   If(\E i \in DOMAIN sh.idle : sh.idle[i].st = "pending"
@@ -548,7 +599,12 @@ ViolOpret(sh, ev) ==
   \cup If(ev.op = "insert" /\ ev.r = "err" /\ ~sh.regErrSeen, {<<"C15", "insert_failed_without_cause">>, <<"C16", "fd_not_reinsertable">>})
   \cup If(ev.op = "into_inner" /\ ev.r = "panic" /\ LifeOf(sh, co.tgt) = "out" /\ ~InPe(sh, co.tgt),
           {<<"C06", "into_inner_after_removal_failed">>})
-  \cup If(ev.op = "dispatch" /\ ev.r = "ok", PendingCheck(sh) \cup IdleEndCheck(sh))
+  \cup If(ev.op = "dispatch" /\ ev.r = "ok", PendingCheck(sh) \cup IdleEndCheck(sh) \cup FutCheck(sh))
+  \cup If(ev.op = "schedule" /\ ev.r = "destroyed" /\ co.tgt \in sh.S /\ sh.dropSrc[co.tgt] = 0,
+          {<<"C10", "schedule_refused_while_executor_alive">>})
+  \cup If(ev.op = "schedule" /\ ev.r = "ok" /\ co.tgt \in sh.S /\ sh.dropSrc[co.tgt] >= 1,
+          {<<"C10", "schedule_accepted_after_executor_dropped">>})
+  \cup If(ev.op = "schedule" /\ ev.r = "panic", {<<"C10", "schedule_panicked">>})
   \cup If(ev.op = "dispatch", ViolPaEnd(sh))
   \* C12: with no event and no wake-up the wait lasts at least min(timeout, earliest armed deadline)
   \cup If(ev.op = "dispatch" /\ ev.r = "ok" /\ sh.earlyRet /\ sh.fired = {} /\ sh.idleRanNow = {},
@@ -603,7 +659,7 @@ LifeSetOf(snap) == {<<snap.life[i][1], snap.life[i][2]>> : i \in DOMAIN snap.lif
 ViolSnap(sh, ev) ==
   IF ev.gone = 1 THEN {}
   ELSE
-  If(ev.pending # "continue", {<<"C09", "post_action_carried_over">>})
+  If(ev.pending # "continue", {<<"C09", "post_action_carried_over">>, <<"C08", "in_callback_request_left_pending">>})
   \cup If(LifeSetOf(ev) # {KeyOf(sh, s) : s \in Opted(sh)} /\ ~(\E s \in sh.S : sh.fuzzy[s]),
           {<<"C14", "lifecycle_set_wrong">>} \cup If(sh.faultSeen, {<<"C15", "bookkeeping_leak_after_fault">>})
           \cup If(sh.cbTargets # {} /\ ~sh.faultSeen, {<<"C08", "in_callback_operation_effect_differs">>})
@@ -625,13 +681,15 @@ ViolSnap(sh, ev) ==
   \cup If(~SnapSubsDistinct(ev), {<<"C16", "duplicate_sub_token">>, <<"C20", "duplicate_sub_token">>})
 
 ViolEnd(sh, ev) ==
-  If(\E s \in sh.S : sh.dropSrc[s] # 1, {<<"C06", "source_not_dropped_exactly_once_at_teardown">>})
+  If(\E f \in DOMAIN sh.fut : sh.fut[f].drops # 1, {<<"C10", "future_not_dropped_exactly_once">>})
+  \cup If(\E s \in sh.S : sh.dropSrc[s] # 1, {<<"C06", "source_not_dropped_exactly_once_at_teardown">>})
   \cup If(\E s \in sh.S : sh.dropCb[s] # sh.cbMade[s],
           {<<"C06", "callback_not_dropped_exactly_once_at_teardown">>})
 
 Viol(sh, ev) ==
   CASE ev.e = "cb"      -> ViolCb(sh, ev)
     [] ev.e = "pe"      -> ViolPe(sh, ev)
+    [] ev.e = "poll"    -> ViolPoll(sh, ev)
     [] ev.e = "peret"   -> ViolPeret(sh, ev)
     [] ev.e = "apply"   -> ViolApply(sh, ev)
     [] ev.e \in {"reg", "rereg", "unreg"} -> ViolProbeCall(sh, ev)
@@ -642,7 +700,7 @@ Viol(sh, ev) ==
     [] ev.e = "synth"   -> ViolSynthObs(sh, ev)
     [] ev.e = "idle_run" -> ViolIdleRun(sh, ev)
     [] ev.e = "lookup"  -> ViolLookup(sh, ev)
-    [] ev.e = "snap"    -> ViolSnap(sh, ev)
+    [] ev.e = "snap"    -> ViolSnap(sh, ev) \cup ViolFutures(sh)
     [] ev.e = "end"     -> ViolEnd(sh, ev)
     [] ev.e = "teardown_panic" -> {<<"C08", "teardown_panicked">>, <<"C06", "teardown_panicked">>}
     [] OTHER -> {}
